@@ -449,6 +449,7 @@ pub fn cases(tier: &str, seed: u64, focus: &str) -> Vec<RsCase> {
 /// space (prescribed zero patterns at the start of the syndrome vector, the rest uniform).  Only the words on which the
 /// implementation reports success (or panics) are kept - C09 speaks about reported successes only - and each of
 /// those becomes an ordinary recorded case that the specification judges.  Deterministic for a given seed.
+pub static STORM_CALLS: std::sync::atomic::AtomicU64 = std::sync::atomic::AtomicU64::new(0);
 fn thin_storm(thorough: bool, seed: u64, gf: &Gf, out: &mut Vec<RsCase>) {
     use datamatrix::errorcode;
     let masks: [&[usize]; 10] = [&[], &[0], &[1], &[0, 1], &[2], &[0, 2], &[1, 2], &[0, 1, 2], &[3], &[0, 1, 2, 3]];
@@ -489,7 +490,9 @@ fn thin_storm(thorough: bool, seed: u64, gf: &Gf, out: &mut Vec<RsCase>) {
                             let mut rng = Rng::new(seed, 0x5709_0000 + (s.total() as u64) * 4096 + (mi as u64) * 64 + ti);
                             let mut keep: Vec<Vec<u8>> = Vec::new();
                             let mut syn = vec![0u8; k];
+                            let mut done = 0u64;
                             for it in 0..per_thread {
+                                done += 1;
                                 if it % 4096 == 0 {
                                     storm_beat(ti as usize, true);
                                 }
@@ -517,6 +520,7 @@ fn thin_storm(thorough: bool, seed: u64, gf: &Gf, out: &mut Vec<RsCase>) {
                                 }
                             }
                             storm_beat(ti as usize, false);
+                            STORM_CALLS.fetch_add(done, std::sync::atomic::Ordering::Relaxed);
                             keep
                         })
                     })
